@@ -204,7 +204,10 @@ def _selftest_c16(trace):
         for r in rows:
             f.write(json.dumps(r) + "\n")
     msgs, _, _ = lib.tlc_trace("Trace_Requests.tla", path, timeout=6000, xmx="8g", metatag="selftest-C16")
-    flagged = {m.get("i") for m in msgs if m.get("kind") == "FAIL"}
+    # a corruption that happens to match the shape of a repaired finding is reported as DEV for
+    # that finding - which the verdict treats as a violation, since the finding is closed
+    fixed = {k["id"] for k in lib.known_findings() if k.get("status") == "fixed"}
+    flagged = {m.get("i") for m in msgs if m.get("kind") == "FAIL" or (m.get("kind") == "DEV" and m.get("deviation") in fixed)}
     missing = {900001, 900002, 900003} - flagged
     if len(done) < 3 or missing:
         raise lib.ToolError(f"C16 binding self-test: corruptions not flagged: {sorted(missing)} (applied {sorted(done)})")
